@@ -16,7 +16,7 @@ pub const DEF: PropDef = PropDef {
     id: "C18",
     title: "Feature matrix: no_std, std and serialize builds agree; no unsafe code",
     rule: "feature_builds = the four feature sets of the statement, enumerated completely: cargo build of the crate (through the cfgdiff probe package, tls-parser with \
-           default-features = false plus the selected features) must succeed for {none, std, std+serialize} and fail for {serialize without std} with the compile_error text; \
+           default-features = false plus the selected features) must succeed for {none, std, std+serialize} (each also type-checked in the plain release profile without debug assertions and in the dev profile) and fail for {serialize without std} with the compile_error text; \
            differential = a corpus generated from VERIF_SEED by the proptest tape strategy (model encoders + corruptions + byte soup; quick 6000, thorough 200000 inputs) is run \
            through 30 entry points, registry lookups, the state machine and the defragmenter by the cfgdiff binary of each buildable configuration; the per-input digests of \
            every {:?} result must be byte-identical across the three configurations, as must six fixed probes (public limits, a never-completing 10 MiB defragmentation stream, a 70000-byte fragmented message, records at 16640/16641 bytes, a ClientHello with 32767 ciphers); static_claims = #![forbid(unsafe_code)] present and no `unsafe` token in src/ and build.rs \
@@ -60,6 +60,16 @@ fn build_all(obs: &mut Obs) -> R {
         ensure!(ok, format!("C18:build:{}", name), "tls-parser does not build with feature set `{}`: {}", name, lines.join(" | "));
         obs.nontrivial(fnv64(name.as_bytes()));
         obs.sample(json!({"feature_set": name, "cargo_args": a, "result": "builds"}));
+        // the same feature set in the other profiles a user builds with: plain release (no debug assertions) and dev
+        for (pn, pargs) in [("plainrelease", vec!["check", "-q", "--profile", "plainrelease"]), ("dev", vec!["check", "-q"])] {
+            let mut a = pargs.clone();
+            a.extend_from_slice(feat);
+            obs.eval();
+            let (ok, err) = cargo(&a, &format!("target-cfg-{}", name));
+            let lines: Vec<&str> = err.lines().filter(|l| l.starts_with("error")).take(4).collect();
+            ensure!(ok, format!("C18:build:{}:{}", name, pn), "tls-parser does not build with feature set `{}` in the {} profile: {}", name, pn, lines.join(" | "));
+            obs.nontrivial(fnv64(format!("{}/{}", name, pn).as_bytes()));
+        }
     }
     obs.eval();
     let (ok, err) = cargo(&["check", "--release", "-q", "--features", "serialize"], "target-cfg-bad");
